@@ -102,6 +102,8 @@ func TestTrace(t *testing.T) {
 	switch o.family {
 	case "store":
 		traceStore(t, o)
+	case "lookup":
+		traceLookup(t, o)
 	default:
 		t.Fatalf("unknown family %q", o.family)
 	}
